@@ -54,6 +54,14 @@ ProgsWitQ == Combos([g \in G3 |-> CASE g = 1 -> {<<"Read", "Read">>}
                                     [] g = 2 -> {<<"Write", "Read">>, <<"CloseWrite", "Write", "Close">>}
                                     [] g = 3 -> {<<"Close", "Read">>, <<"ConnState", "Close", "Write">>}])
 
+\* read-path post-handshake messages: HelloRequest (TLS <= 1.2 client) and KeyUpdate (TLS 1.3)
+ProgsRn == Combos([g \in G3 |-> CASE g = 1 -> {<<"Read">>, <<"Read", "Read">>}
+                                  [] g = 2 -> {<<"Write", "Write">>, <<"ConnState", "Write">>}
+                                  [] g = 3 -> {<<"ConnState", "Close">>, <<"Handshake", "ConnState">>}])
+ProgsKu == Combos([g \in G3 |-> CASE g = 1 -> {<<"Read", "Read">>}
+                                  [] g = 2 -> {<<"Write", "Write2">>, <<"Write", "CloseWrite">>}
+                                  [] g = 3 -> {<<"ConnState", "Close">>, <<"Write">>}])
+
 \* generation: programs over all call kinds, any role on any goroutine
 AnyMenu == ReaderMenuT \cup WriterMenuT \cup CloserMenuT
 ProgsGen3 == [G3 -> AnyMenu]
